@@ -27,7 +27,7 @@ from fractions import Fraction as F
 
 from ..core import Ctx, MachineryError, digest
 from ..forkpool import prepare_imports, run_cases
-from ..lattice import ALL, EMBEDDINGS, OffLattice
+from ..lattice import ALL, EMBEDDINGS, EXACT, OffLattice
 from .. import tlc
 
 THICK = 1e12          # inc = thickness * 0.1 / magnitude >= 1: a single dash from the clipped p1 to the clipped p2
@@ -200,7 +200,9 @@ def _pts_of(rec):
 
 def coord_events(clip_gen, ops_gen, rng, tier):
     """events that depend on the embedding"""
-    evs = [{"kind": "clip", "window": g["window"], "seg": g["seg"]} for g in clip_gen]
+    # ties = 1: some computed crossing lands exactly on a window line (decided by the last bit under an inexact
+    # embedding): replayed under the exact embeddings only
+    evs = [{"kind": "clip", "window": g["window"], "seg": g["seg"], "exact_only": g["ties"]} for g in clip_gen]
     wins = sorted({tuple(g["window"]) for g in clip_gen})
     for w in wins:
         for size in ((8, 8), (12, 5)):
@@ -231,7 +233,7 @@ def coord_events(clip_gen, ops_gen, rng, tier):
                 xx = rng.choice([x0, x1]); s = [xx, rng.randint(-4, 20), xx, rng.randint(-4, 20)]
         else:                # both ends outside, crossing or missing diagonally
             s = [min(x0, x1) - rng.randint(1, 4), rng.randint(-4, 20), max(x0, x1) + rng.randint(1, 4), rng.randint(-4, 20)]
-        evs.append({"kind": "clip", "window": [x0, y0, x1, y1], "seg": s, "random": 1})
+        evs.append({"kind": "clip", "window": [x0, y0, x1, y1], "seg": s, "random": 1, "exact_only": 1})
     return evs
 
 
@@ -317,8 +319,9 @@ def decide(ctx: Ctx, batches: list[dict]):
 def _batches(coord, colour):
     out = []
     for en in ALL:
-        for i in range(0, len(coord), 500):
-            out.append({"emb": en, "events": coord[i:i + 500]})
+        evs = [e for e in coord if en in EXACT or not e.get("exact_only")]
+        for i in range(0, len(evs), 500):
+            out.append({"emb": en, "events": evs[i:i + 500]})
     for i in range(0, len(colour), 500):
         out.append({"emb": "int", "events": colour[i:i + 500]})
     return out
@@ -348,6 +351,7 @@ def run(ctx: Ctx) -> int:
     ctx.extra["cases_from_tlc"] = len(clip_gen) + len(ops_gen)
     ctx.assumptions += [
         "float dimension sampled by 8 embeddings of the integer lattice (steps 1, 1.0, 1/2, 1/10, 1/3, 1e3, 1e-3, 0.1+37.3), not enumerated; observed floats are pulled back to the nearest rational with denominator <= 2000 (1e-6 lattice units)",
+        "clip cases in which a computed crossing lands exactly on a window line (corner crossings; flag `ties` computed by TLC) and the random clip cases are replayed under the exact embeddings (int, flt, half, big) only: under an inexact embedding the last bit decides such ties; a dash whose end points coincide on the lattice counts as nothing drawn",
         "the clipped segment is observed as the single dash drawn with thickness 1e12 (recorded _draw_simple_line); the dash PATTERN of finite thickness and every pixel-level effect of PIL are not examined",
         "clauses are derived from the docstrings / comments / usage of canvas.py (see CanvasOps.tla and Clip.tla headers), there is no separate property statement",
         "draw_text (needs fonts), dots / ellipses, show/save are not examined",
